@@ -1,31 +1,55 @@
+from fractions import Fraction
+
 from rtamt.syntax.ast.visitor.stl.ast_visitor import StlAstVisitor
 from rtamt.pastifier.ltl.horizon import LtlHorizon
 
 from rtamt.exception.exception import RTAMTException
 
 
+def bounds_in_default_unit(node, ast):
+    """Bounds of a timed node expressed in the default unit of the specification
+    (a unit written on one bound only applies to both; no unit means the default unit)."""
+    begin = node.begin
+    end = node.end
+    b_unit = node.begin_unit
+    e_unit = node.end_unit
+    if ast is None or (len(b_unit) == 0 and len(e_unit) == 0):
+        return begin, end
+    if len(b_unit) == 0:
+        b_unit = e_unit
+    elif len(e_unit) == 0:
+        e_unit = b_unit
+    begin = begin * Fraction(ast.U[b_unit], ast.U[ast.unit])
+    end = end * Fraction(ast.U[e_unit], ast.U[ast.unit])
+    return begin, end
+
+
 class StlHorizon(LtlHorizon, StlAstVisitor):
 
     def __init__(self):
         LtlHorizon.__init__(self)
+        self.ast = None
 
     def visit(self, node, *args, **kwargs):
         return StlAstVisitor.visit(self, node, *args, **kwargs)
 
     def visitTimedEventually(self, node, *args, **kwargs):
         op_horizon = self.visit(node.children[0], *args, **kwargs)
-        self.horizons[node] = op_horizon + node.end
-        return op_horizon + node.end
+        begin, end = bounds_in_default_unit(node, self.ast)
+        self.horizons[node] = op_horizon + end
+        return op_horizon + end
 
     def visitTimedAlways(self, node, *args, **kwargs):
         op_horizon = self.visit(node.children[0], *args, **kwargs)
-        self.horizons[node] = op_horizon + node.end
-        return op_horizon + node.end
+        begin, end = bounds_in_default_unit(node, self.ast)
+        self.horizons[node] = op_horizon + end
+        return op_horizon + end
 
     def visitTimedUntil(self, node, *args, **kwargs):
         op1_horizon = self.visit(node.children[0], *args, **kwargs)
         op2_horizon = self.visit(node.children[1], *args, **kwargs)
-        out = max(op1_horizon, op2_horizon) + node.end
+        begin, end = bounds_in_default_unit(node, self.ast)
+        out = max(op1_horizon, op2_horizon) + end
         self.horizons[node] = out
         return out
 
